@@ -298,7 +298,7 @@ class Program:
                 r = any(isinstance(x, ast.Call) and isinstance(x.func, ast.Name) and x.func.id in writers for st in top for x in ast.walk(st))
         if not r:
             # a registration decorator: a module-level function that stores into `name` and is used as decorator somewhere in the module
-            decos = {ast.unparse(d.func if isinstance(d, ast.Call) else d) for st in ast.walk(m.tree) if isinstance(st, ast.FunctionDef) for d in st.decorator_list}
+            decos = {ast.unparse(d.func if isinstance(d, ast.Call) else d) for st in ast.walk(m.tree) if isinstance(st, (ast.FunctionDef, ast.ClassDef)) for d in st.decorator_list}
             for st in m.tree.body:
                 if isinstance(st, ast.FunctionDef) and st.name in decos and any(writes(x) for x in ast.walk(st) if isinstance(x, ast.stmt)): r = True
         cache[k] = r
